@@ -419,3 +419,24 @@ check(
                 "Held on the cases counted in the evidence; a bias below 6 standard errors at the largest n is not detectable."),
     level_note="trusted: Gaussian sampling theory for the estimator variances; 6-sigma tolerances give a false-alarm probability below 1e-7 per test",
 )
+
+check(
+    "C20",
+    runs=[dict(harness="C20_dynamics", flavour="plain")],
+    rule=("random configurations (thresholds -50..0 dB, ratios 1..50, knee widths 0..20 dB, attack/release 0..4 s, sample rates 8k..192k): "
+          "with zero attack and release, Compressor and Limiter on input levels -100..+20 dB plus a 0.01 dB grid and 1e-7 dB steps around both "
+          "knee edges vs the long-double static characteristic (1e-9 dB), gain in [0,1], monotone, continuous across the knee edges; "
+          "arbitrary signals (noise, bursts, steps, silence) of 2e4 (quick) / 1e5 (thorough) samples through Compressor, Limiter and "
+          "NoiseGate: gain in [0,1], |out| <= |in|, zero-attack Limiter never above its threshold; level steps: smoothed gain monotone with "
+          "10-90% time == configured attack/release time (+-2 samples +-1%); Agc with targets 0.01..100, inputs over 80 dB, averaging "
+          "lengths 1..1000, real and complex constant-envelope inputs in random frames: settled output power within 1% of the target when "
+          "the needed gain is below max_gain, gain never above max_gain. distinct = (configuration, signal bits)."),
+    min_distinct={"quick": 1500, "thorough": 8000},
+    min_obs={"quick": {"static_levels_judged": 100000, "timing_measurements": 150, "agc_runs_inside_gain_range": 20, "limiter_ceiling_samples": 1000000},
+             "thorough": {"static_levels_judged": 1000000, "timing_measurements": 800, "agc_runs_inside_gain_range": 100, "limiter_ceiling_samples": 10000000}},
+    technique="runtime monitor: long-double static characteristic as oracle on level sweeps, range/ceiling invariants on arbitrary signals, step-response timing monitor",
+    level_text=("Processors are executed on level sweeps finer than the knee and on arbitrary signals; static levels are compared with the "
+                "documented characteristic in extended precision and the invariants are asserted on every sample. Held on the samples "
+                "counted in the evidence."),
+    level_note="trusted: the harness's transcription of the documented static characteristic (unity / knee / slope 1/R or ceiling)",
+)
